@@ -41,6 +41,37 @@ def seeded_table():
     return "\n".join(rows)
 
 
+def summary():
+    tot = own = other = none = 0
+    missed = []
+    for d in sorted(glob.glob(os.path.join(ROOT, "seeded", "*", "meta.json"))):
+        m = json.load(open(d))
+        name = os.path.basename(os.path.dirname(d))
+        codes = m.get("quick_checks_run_against_it") or {}
+        tot += 1
+        if codes.get(m.get("property")) == 1:
+            own += 1
+        elif any(v == 1 for v in codes.values()):
+            other += 1
+            missed.append(name + " (reported by " + ", ".join(k for k, v in codes.items() if v == 1) + ")")
+        else:
+            none += 1
+            missed.append(name + " (NOT reported)")
+    rounds = {}
+    for d in glob.glob(os.path.join(ROOT, "seeded", "*")):
+        n = os.path.basename(d)
+        if os.path.isdir(d):
+            r = re.search(r"-r(\d)m", n)
+            rounds[r.group(1) if r else "1"] = rounds.get(r.group(1) if r else "1", 0) + 1
+    lines = [f"**{tot} seeded changes kept** (per round: " + ", ".join(f"round {k}: {v}" for k, v in sorted(rounds.items())) + "). "
+             f"With the machinery as committed, the registered quick check of the change's own property reports a VIOLATION for **{own}**; "
+             f"**{other}** are reported only by the quick check of another property; **{none}** are not reported."]
+    if missed:
+        lines.append("")
+        lines.append("Not reported by the own property's check: " + "; ".join(missed) + ".")
+    return "\n".join(lines)
+
+
 def own_table():
     p = os.path.join(ROOT, "mutants", "RESULTS.md")
     if not os.path.exists(p):
@@ -52,7 +83,7 @@ def own_table():
 def main():
     p = os.path.join(ROOT, "DESIGN.md")
     s = open(p).read()
-    for tag, gen in [("BOUNDS", bounds_table), ("SEEDED", seeded_table), ("OWN", own_table)]:
+    for tag, gen in [("BOUNDS", bounds_table), ("SEEDED", seeded_table), ("OWN", own_table), ("SUMMARY", summary)]:
         b, e = f"<!-- BEGIN {tag} -->", f"<!-- END {tag} -->"
         if b in s and e in s:
             s = s[: s.index(b) + len(b)] + "\n" + gen() + "\n" + s[s.index(e):]
